@@ -24,6 +24,7 @@ import HL.Lemmas.Ranges
 import HL.Lemmas.Completion
 import HL.Model.CompletionPinned
 import HL.Model.Parser
+import HL.Model.Pipeline
 namespace HL.Props.C08
 open HL HL.Ast HL.Text HL.Ranges HL.RangeSpec HL.Lemmas.Ranges HL.Lemmas.Text
 
@@ -254,6 +255,230 @@ theorem nameRange_lexSound (doc : Txt) (start : Pos) (name : Bytes) (ln pre suf 
   refine ⟨⟨⟨⟨decide_eq_true h1, trivial⟩, decide_eq_true h2⟩, decide_eq_true (by omega)⟩, by omega, ?_⟩
   have e3 : start.col + runeLenB name - 1 - (start.col - 1) = lex.length := by omega
   rw [e3, hln, ← hpre, List.append_assoc, List.drop_left, List.take_left]
+
+/-- A range on one line whose two columns enclose `lex` is a range of the text that delimits
+    exactly `lex` (rune columns). -/
+theorem span_lexSound (doc : Txt) (r : Rng) (ln pre suf lex : Txt)
+    (h1 : 1 ≤ r.start.line) (h2 : 1 ≤ r.start.col)
+    (hl : (docLines doc)[r.start.line - 1]? = some ln) (hln : ln = pre ++ lex ++ suf)
+    (hpre : pre.length = r.start.col - 1)
+    (hsl : r.stop.line = r.start.line) (hsc : r.stop.col = r.start.col + lex.length) :
+    lexSound one doc r lex = true := by
+  have e1 : r.start.col - 1 ≤ ln.length := by rw [hln]; simp; omega
+  have e2 : r.stop.col - 1 ≤ ln.length := by rw [hln]; simp; omega
+  simp only [lexSound, hl, charsOf_one, e1, e2, if_true, Bool.and_eq_true, decide_eq_true_eq, beq_iff_eq]
+  refine ⟨⟨⟨⟨h1, hsl.symm⟩, h2⟩, by omega⟩, by omega, ?_⟩
+  have e3 : r.stop.col - 1 - (r.start.col - 1) = lex.length := by omega
+  rw [e3, hln, ← hpre, List.append_assoc, List.drop_left, List.take_left]
+
+/-- What the tree must say about the commodity `c` of a `commodity` / `P` directive whose
+    lexeme `lex` (the symbol, WITH its quotes when it is written in quotes) stands on the line
+    right after `pre`: it starts where the lexeme starts, and either the parser recorded the
+    token's End — the position right after the lexeme — or it recorded none and the lexeme is
+    the bare symbol.  This is what `Parser.directiveCommodity` produces from the lexer's token
+    (`HL.Parser.directiveCommodity`, examples below). -/
+def DirectiveCommodityAt (doc : Txt) (c : Commodity) (ln pre suf lex : Txt) : Prop :=
+  1 ≤ c.range.start.line ∧ 1 ≤ c.range.start.col ∧
+  (docLines doc)[c.range.start.line - 1]? = some ln ∧ ln = pre ++ lex ++ suf ∧
+  pre.length = c.range.start.col - 1 ∧
+  (if hasEnd c.range = true then
+     c.range.stop.line = c.range.start.line ∧ c.range.stop.col = c.range.start.col + lex.length
+   else lex.length = runeLenB c.symbol)
+
+/-- **The range of a directive's commodity delimits its whole lexeme, quoted or not.**  No guard
+    on the way the symbol is written is left (`pinned_quoted_commodity_directive_counterexample`
+    keeps the behaviour before fix-quoted-commodity-directive.diff). -/
+theorem directiveCommodityRange_lexSound (doc : Txt) (c : Commodity) (ln pre suf lex : Txt)
+    (h : DirectiveCommodityAt doc c ln pre suf lex) :
+    lexSound one doc (directiveCommodityRange c) lex = true := by
+  obtain ⟨h1, h2, hl, hln, hpre, hend⟩ := h
+  unfold directiveCommodityRange
+  cases hz : c.range.stop == Pos.zero
+  · have he : hasEnd c.range = true := by simp [hasEnd, bne, hz]
+    simp only [he, if_true] at hend
+    simp only [bne, hz, Bool.not_false, if_true]
+    exact span_lexSound doc c.range ln pre suf lex h1 h2 hl hln hpre hend.1 hend.2
+  · have he : ¬ hasEnd c.range = true := by simp [hasEnd, bne, hz]
+    simp only [he] at hend
+    simp only [bne, hz, Bool.not_true, Bool.false_eq_true, if_false]
+    exact nameRange_lexSound doc c.range.start c.symbol ln pre suf lex h1 h2 hl hln hpre hend
+
+/-- … hence the range sent for it (prepareRename, references, rename edits, workspace symbols) is
+    a well-formed range of the document — it cannot end inside a surrogate pair — and covers
+    exactly the lexeme. -/
+theorem directiveCommodity_rangeOK_covers (doc : Txt) (c : Commodity) (ln pre suf lex : Txt)
+    (h : DirectiveCommodityAt doc c ln pre suf lex) (hd : docSmall doc = true) :
+    rangeOK doc (toN (astRangeToProtocol (lines doc) (directiveCommodityRange c))) = true ∧
+    covers doc (toN (astRangeToProtocol (lines doc) (directiveCommodityRange c))) lex = true := by
+  have hl := directiveCommodityRange_lexSound doc c ln pre suf lex h
+  exact ⟨conv_rangeOK (rngSound_of_lexSound hl) hd, conv_covers hl hd⟩
+
+/-- The hit of a directive's commodity whose End the parser recorded passes `hitGuard` (it is a
+    range of the tree): `prepareRename_rangeOK_partial` / `references_rangeOK_partial` /
+    `rename_rangeOK_partial` apply to it with `TreePositionsSound` alone. -/
+theorem directiveCommodityHit_guard (doc : Txt) (nm : Bytes) (c : Commodity) (he : hasEnd c.range = true) :
+    hitGuard doc (directiveCommodityHit nm c) = true := by
+  have hz : (c.range.stop == Pos.zero) = false := by
+    cases h : c.range.stop == Pos.zero
+    · rfl
+    · simp [hasEnd, bne, h] at he
+  simp [hitGuard, directiveCommodityHit, directiveCommodityRange, hz, bne, he]
+
+/-- PrepareRename is on target: whenever the rune columns of the located element delimit `lex`,
+    the range offered for renaming covers exactly `lex`. -/
+theorem prepareRename_covers_partial (doc : Txt) (j : Journal) (c : Cur) (h : Hit) (x : LRange) (lex : Txt)
+    (hh : prepareRename (lines doc) j c = some (h, x)) (hl : lexSound one doc h.rng lex = true)
+    (hd : docSmall doc = true) : covers doc (toN x) lex = true := by
+  simp only [prepareRename, Option.map_eq_some_iff] at hh
+  obtain ⟨h', _, he⟩ := hh
+  simp only [Prod.mk.injEq] at he
+  obtain ⟨rfl, rfl⟩ := he
+  exact conv_covers hl hd
+
+/-- Nothing collected is dropped: every occurrence `findReferences` collects is in the response
+    with the range computed for it. -/
+theorem references_complete (lns : List Txt) (j : Journal) (c : Cur) (decl : Bool) (t h : Hit)
+    (ht : findDefinitionTarget lns j c = some t) (hh : h ∈ referenceHits j t decl) :
+    ∃ e ∈ references lns j c decl, e.2 = astRangeToProtocol lns h.rng := by
+  unfold references
+  simp only [ht]
+  obtain ⟨y, hy, hy2⟩ := sortAndDedup_sup ((referenceHits j t decl).map fun h => (h, astRangeToProtocol lns h.rng))
+    (h, astRangeToProtocol lns h.rng) (List.mem_map.mpr ⟨h, hh, rfl⟩)
+  exact ⟨y, hy, hy2⟩
+
+/-- The `commodity` directive that declares the symbol is among the occurrences collected with
+    the declaration, the `P` directive that prices it always is. -/
+theorem referenceHits_directive_site (j : Journal) (t : Hit) (decl : Bool) (d : Directive) (cm : Commodity)
+    (hk : t.kind = .commodity) (hd : d ∈ j.directives) (hs : cm.symbol = t.name)
+    (hsite : (∃ f n sub r, d = .commodity cm f n sub r ∧ decl = true) ∨ (∃ dt p r, d = .price dt cm p r)) :
+    directiveCommodityHit t.name cm ∈ referenceHits j t decl := by
+  unfold referenceHits
+  simp only [hk, List.mem_append, List.mem_flatMap]
+  refine Or.inl ⟨d, hd, ?_⟩
+  rcases hsite with ⟨f, n, sub, r, rfl, rfl⟩ | ⟨dt, p, r, rfl⟩
+  · simp [commodityRefDirective, hs]
+  · simp [commodityRefDirective, hs]
+
+/-- **References lists the directive site with the range of its whole lexeme**, and the rename
+    edit for that site (rename = references with the declaration) replaces the whole lexeme:
+    for a cursor anywhere on the symbol (a posting, a cost, the directive itself), the response
+    holds a location that covers exactly the lexeme written in the directive, quotes included. -/
+theorem references_directive_site_covers (doc : Txt) (j : Journal) (c : Cur) (decl : Bool) (t : Hit)
+    (d : Directive) (cm : Commodity) (ln pre suf lex : Txt)
+    (ht : findDefinitionTarget (lines doc) j c = some t) (hk : t.kind = .commodity)
+    (hd : d ∈ j.directives) (hs : cm.symbol = t.name)
+    (hsite : (∃ f n sub r, d = .commodity cm f n sub r ∧ decl = true) ∨ (∃ dt p r, d = .price dt cm p r))
+    (hat : DirectiveCommodityAt doc cm ln pre suf lex) (hsm : docSmall doc = true) :
+    ∃ e ∈ references (lines doc) j c decl, rangeOK doc (toN e.2) = true ∧ covers doc (toN e.2) lex = true := by
+  obtain ⟨e, he, he2⟩ := references_complete (lines doc) j c decl t _ ht
+    (referenceHits_directive_site j t decl d cm hk hd hs hsite)
+  have := directiveCommodity_rangeOK_covers doc cm ln pre suf lex hat hsm
+  refine ⟨e, he, ?_⟩
+  rw [he2]
+  exact this
+
+theorem rename_directive_site_covers (doc : Txt) (j : Journal) (c : Cur) (t : Hit)
+    (d : Directive) (cm : Commodity) (ln pre suf lex : Txt)
+    (ht : findDefinitionTarget (lines doc) j c = some t) (hk : t.kind = .commodity)
+    (hd : d ∈ j.directives) (hs : cm.symbol = t.name)
+    (hsite : (∃ f n sub r, d = .commodity cm f n sub r) ∨ (∃ dt p r, d = .price dt cm p r))
+    (hat : DirectiveCommodityAt doc cm ln pre suf lex) (hsm : docSmall doc = true) :
+    ∃ e ∈ rename (lines doc) j c, rangeOK doc (toN e.2) = true ∧ covers doc (toN e.2) lex = true := by
+  apply references_directive_site_covers doc j c true t d cm ln pre suf lex ht hk hd hs ?_ hat hsm
+  rcases hsite with ⟨f, n, sub, r, h⟩ | h
+  · exact Or.inl ⟨f, n, sub, r, h, rfl⟩
+  · exact Or.inr h
+
+/-! ### The quoted commodity of a directive, end to end on the two witnesses
+
+    Text in, ranges out: the lexer and parser models (`HL.Pipeline.parseText`, what
+    `parser.Parse` computes) produce the tree, the server model the ranges.  Both documents are
+    replayed against the real server from replays/C08/quoted-commodity-directive.jsonl. -/
+
+def qText : String :=
+  "commodity \"AAPL 2\"\nP 2024-01-01 \"AAPL 2\" 2 USD\n\n2024-01-15 x\n    a:b  1 \"AAPL 2\"\n    c:d\n"
+def qTree : Journal := (HL.Pipeline.parseText Classes.go qText.toUTF8.toList).1
+
+/-- `commodity "AAPL 2"` / `P … "AAPL 2" 2 USD` / posting `1 "AAPL 2"`: the parser records the End
+    of both directive commodities (columns 11–19 and 14–22); prepareRename on the declaration,
+    references from the posting, the rename edits from the `P` line and the workspace symbol all
+    report the whole lexeme `"AAPL 2"`, the same convention at the three kinds of site. -/
+example :
+    let doc := qText.toList
+    (qTree.directives.map fun d => match d with
+      | .commodity c _ _ _ _ => (hasEnd c.range, c.range.start.col, c.range.stop.col)
+      | .price _ c _ _ => (hasEnd c.range, c.range.start.col, c.range.stop.col)
+      | _ => (false, 0, 0)) = [(true, 11, 19), (true, 14, 22)] ∧
+    TreePositionsSound one doc qTree = true ∧
+    (prepareRename (lines doc) qTree ⟨0, 12⟩).map (fun e => (toN e.2, hitGuard doc e.1)) =
+      some (⟨0, 10, 0, 18⟩, true) ∧
+    ((references (lines doc) qTree ⟨4, 13⟩ true).map fun e => (toN e.2, covers doc (toN e.2) "\"AAPL 2\"".toList)) =
+      [(⟨0, 10, 0, 18⟩, true), (⟨1, 13, 1, 21⟩, true), (⟨4, 11, 4, 19⟩, true)] ∧
+    ((rename (lines doc) qTree ⟨1, 14⟩).map fun e => (toN e.2, covers doc (toN e.2) "\"AAPL 2\"".toList)) =
+      [(⟨0, 10, 0, 18⟩, true), (⟨1, 13, 1, 21⟩, true), (⟨4, 11, 4, 19⟩, true)] ∧
+    ((workspaceSymbols (lines doc) qTree).map fun e => slice doc (toN e.2)) =
+      [some "\"AAPL 2\"".toList, some "x".toList] := by
+  decide +kernel
+
+def eText : String :=
+  "commodity \"😀\"\nP 2024-01-01 \"😀\" 2 €\n\n2024-01-15 x\n    a😀:b  1 \"😀\"\n    c:d\n"
+def eTree : Journal := (HL.Pipeline.parseText Classes.go eText.toUTF8.toList).1
+
+/-- The symbol is a character outside the BMP (two UTF-16 units, one rune column), in the posting
+    it stands after another one: every range is well-formed — none ends inside the surrogate
+    pair — and covers `"😀"`. -/
+example :
+    let doc := eText.toList
+    TreePositionsSound one doc eTree = true ∧
+    (prepareRename (lines doc) eTree ⟨0, 11⟩).map (fun e => (toN e.2, rangeOK doc (toN e.2))) =
+      some (⟨0, 10, 0, 14⟩, true) ∧
+    ((references (lines doc) eTree ⟨4, 15⟩ true).map fun e =>
+        (toN e.2, rangeOK doc (toN e.2), covers doc (toN e.2) "\"😀\"".toList)) =
+      [(⟨0, 10, 0, 14⟩, true, true), (⟨1, 13, 1, 17⟩, true, true), (⟨4, 13, 4, 17⟩, true, true)] := by
+  decide +kernel
+
+/-- Non-vacuity of `DirectiveCommodityAt` on the parser's own trees: the quoted declaration
+    (End recorded, lexeme with quotes) and a lower-case symbol (a text token: no End, the lexeme is
+    the bare symbol — the blanks before the comment are not part of the range). -/
+example :
+    DirectiveCommodityAt qText.toList ⟨"AAPL 2".toUTF8.toList, .left, ⟨⟨1, 11, 10⟩, ⟨1, 19, 18⟩⟩⟩
+      "commodity \"AAPL 2\"".toList "commodity ".toList [] "\"AAPL 2\"".toList ∧
+    (HL.Pipeline.parseText Classes.go "commodity usd  ; c\n".toUTF8.toList).1.directives =
+      [.commodity ⟨"usd".toUTF8.toList, .left, ⟨⟨1, 11, 10⟩, Pos.zero⟩⟩ [] [] [] ⟨⟨1, 1, 0⟩, ⟨2, 1, 19⟩⟩] ∧
+    DirectiveCommodityAt "commodity usd  ; c\n".toList ⟨"usd".toUTF8.toList, .left, ⟨⟨1, 11, 10⟩, Pos.zero⟩⟩
+      "commodity usd  ; c".toList "commodity ".toList "  ; c".toList "usd".toList := by
+  refine ⟨⟨by decide, by decide, by decide +kernel, by decide +kernel, by decide, ?_⟩, by decide +kernel,
+    ⟨by decide, by decide, by decide +kernel, by decide +kernel, by decide, ?_⟩⟩
+  · rw [if_pos (by decide)]; exact ⟨by decide, by decide⟩
+  · rw [if_neg (by decide)]; decide +kernel
+
+/-- **pinned_quoted_commodity_directive_counterexample** (before
+    repo_patches/fix-quoted-commodity-directive.diff).  The parser recorded only where the
+    commodity of a `commodity` / `P` directive starts (`HL.Parser.directiveCommodityPinned`) and
+    the server derived the end from the symbol's length: for `commodity "AAPL 2"` prepareRename,
+    references with the declaration and the rename edit reported 0:10–0:16, which covers
+    `"AAPL ` — a rename left `2"` behind; for `commodity "😀"` (one rune) it reported 0:10–0:11,
+    the opening quote alone.  The repaired server computes exactly that for a tree without End
+    (its fallback), and the whole lexeme for the tree the repaired parser produces. -/
+theorem pinned_quoted_commodity_directive_counterexample :
+    let doc := "commodity \"AAPL 2\"\n".toList
+    let tok : Token := ⟨.commodity, "AAPL 2".toUTF8.toList, ⟨1, 11, 10⟩, ⟨1, 19, 18⟩⟩
+    let old := HL.Parser.directiveCommodityPinned tok
+    let new := HL.Parser.directiveCommodity tok
+    let doc2 := "commodity \"😀\"\n".toList
+    let tok2 : Token := ⟨.commodity, [240, 159, 152, 128], ⟨1, 11, 10⟩, ⟨1, 14, 16⟩⟩
+    let old2 := HL.Parser.directiveCommodityPinned tok2
+    let new2 := HL.Parser.directiveCommodity tok2
+    toN (astRangeToProtocol (lines doc) (directiveCommodityRangePinned old)) = ⟨0, 10, 0, 16⟩ ∧
+    covers doc (toN (astRangeToProtocol (lines doc) (directiveCommodityRangePinned old))) "\"AAPL 2\"".toList = false ∧
+    slice doc (toN (astRangeToProtocol (lines doc) (directiveCommodityRangePinned old))) = some "\"AAPL ".toList ∧
+    directiveCommodityRange old = directiveCommodityRangePinned old ∧
+    covers doc (toN (astRangeToProtocol (lines doc) (directiveCommodityRange new))) "\"AAPL 2\"".toList = true ∧
+    toN (astRangeToProtocol (lines doc2) (directiveCommodityRangePinned old2)) = ⟨0, 10, 0, 11⟩ ∧
+    slice doc2 (toN (astRangeToProtocol (lines doc2) (directiveCommodityRangePinned old2))) = some "\"".toList ∧
+    rangeOK doc2 (toN (astRangeToProtocol (lines doc2) (directiveCommodityRange new2))) = true ∧
+    covers doc2 (toN (astRangeToProtocol (lines doc2) (directiveCommodityRange new2))) "\"😀\"".toList = true := by
+  decide +kernel
 
 /-- Document links, code as pinned (range of the whole directive). -/
 theorem documentLink_rangeOK_partial (doc : Txt) (j : Journal) (fx : Fixes)
